@@ -10,7 +10,7 @@ From Verif Require Model.RegistrySnapshot Model.Exec Model.Typing.
    string "count( * )" below (it takes the characters after the parenthesis for the start of a comment) and would not
    record the dependencies on the generated files; imported mid-file, where the names are wanted *)
 From Verif Require Model.PyMini Model.PrimsApi Model.PrimsCompiler Gen.SrcLookup Proofs.SrcLookup Gen.SrcCompiler
-  Proofs.SrcCompiler.
+  Proofs.SrcCompiler Proofs.SrcCompilerGroup.
 Open Scope string_scope.
 Open Scope list_scope.
 Open Scope nat_scope.
@@ -412,8 +412,44 @@ Theorem C05_source_get_columns_and_aggregates :
 Proof. exact Verif.Proofs.SrcCompiler.get_columns_and_aggregates_src. Qed.
 Print Assumptions C05_source_get_columns_and_aggregates.
 
+(* Compiler._compile_group_by = Compile.compile_group_by, for EVERY target list, GROUP BY clause (or none) and behaviour
+   [compf] of `self._compile`: a position is checked against the number of targets of the SELECT list; a name resolves
+   to the last target of that name; any other key is compiled, rejected when it is an aggregate, reconciled with the
+   first equal target expression or appended as a hidden non-aggregate target; the target a key refers to must not be an
+   aggregate and must have a hashable datatype (in this order, per key); HAVING is compiled, checked by check_aggregates,
+   must be an aggregate and becomes the last hidden target (having_index); without a clause group_indexes is None (no
+   aggregate target), [] (only aggregates) or the positions of the non-aggregate targets (implicit GROUP BY:
+   SUPPORT_IMPLICIT_GROUPBY is inlined as a constant).  [grp_ok]: the clause has at least one key (the parser's
+   guarantee, asserted by the code) and expression nodes are records of a class other than ast.Column / int. *)
+Theorem C05_source_compile_group_by :
+  forall (call_ref : nat -> list pv -> pv) (tbl : nat -> Compile.cnode) (kids : nat -> list nat)
+         (mro : string -> list string) (msg : string -> list pv -> pv)
+         (compf : pv -> Compile.result nat Compile.cerr) (kc kchk kagg : nat),
+  ref_of Verif.Gen.SrcCompiler.refs "beanquery.compiler.check_aggregates" = Some kchk ->
+  ref_of Verif.Gen.SrcCompiler.refs "beanquery.compiler.is_aggregate" = Some kagg ->
+  (forall a, call_ref kc [a] = Verif.Proofs.SrcCompiler.enc_rid (compf a)) ->
+  (forall i, call_ref kchk [nref i] =
+             match Compile.check_aggregates (tbl i) with Some e => PV (VErr (CompErr e)) | None => PNone end) ->
+  (forall i, call_ref kagg [nref i] = PBool (Compile.has_agg (tbl i))) ->
+  forall (pts0 : list ptarget) (g : Verif.Proofs.SrcCompilerGroup.grp) (flds : env),
+  lookup "_compile" flds = Some (PRef kc) -> Verif.Proofs.SrcCompilerGroup.grp_ok g ->
+  match Compile.compile_group_by (map (Verif.Proofs.SrcCompiler.T tbl) pts0)
+                                 (Verif.Proofs.SrcCompilerGroup.grp_of tbl compf g) with
+  | Compile.Err e =>
+      call_method call_ref (prim_compiler tbl kids mro msg) Verif.Gen.SrcCompiler.compile_group_by flds
+        [Verif.Proofs.SrcCompilerGroup.enc_grp g; PList (map enc_target pts0)] = Exc (CompErr e)
+  | Compile.Ok (ts, gi, hi) =>
+      exists new : list ptarget,
+        call_method call_ref (prim_compiler tbl kids mro msg) Verif.Gen.SrcCompiler.compile_group_by flds
+          [Verif.Proofs.SrcCompilerGroup.enc_grp g; PList (map enc_target pts0)] =
+        PyMini.Ok (flds, PTuple [PList (map enc_target new); Verif.Proofs.SrcCompiler.enc_gi gi;
+                                 Verif.Proofs.SrcCompiler.enc_oidx hi])
+        /\ map (Verif.Proofs.SrcCompiler.T tbl) new = skipn (length pts0) ts
+  end.
+Proof. exact Verif.Proofs.SrcCompilerGroup.group_by_source. Qed.
+Print Assumptions C05_source_compile_group_by.
+
 (* NOT YET TIED BY PROOF (translated and regenerated on every run, so a change is visible in Gen/SrcCompiler.v; the
-   correspondence streams remain their only check): Compiler._compile_group_by (C05_source_compile_group_by: the same
-   statement as for ORDER BY over Compile.compile_group_by, with the HAVING target and the implicit GROUP BY),
+   correspondence streams remain their only check):
    _get_columns_and_aggregates and check_aggregates (one level of the walk with the recursive call opaque),
    Compiler._unaryop / _between (overload selection; translated), Compiler._binaryop (outside the fragment: `while True`). *)
